@@ -18,7 +18,8 @@ JOBS = {'quick': 2, 'thorough': 16}
 REQUIRED_MONITORS = ('library_view_of_written_file', 'tokens_original_vs_written', 'second_round_trip', 'topology_original_vs_written', 'written_onto_source', 'written_through_copy')
 REQUIRED_CLASSES = ('shipped', 'repeated-section', 'trailing:empty', 'trailing:multiple', 'trailing:hash', 'trailing:multiple-last-empty',
                     'header-text', 'decorated', 'no-final-newline', 'shipped-with-repeated-section', 'line-endings:dos',
-                    'carrier:handle', 'carrier:handle-newline-untranslated', 'carrier:handle-relative-then-chdir', 'carrier:relative-path')
+                    'carrier:handle', 'carrier:handle-newline-untranslated', 'carrier:handle-relative-then-chdir', 'carrier:relative-path',
+                    'recovery:failed-write-then-written-elsewhere')
 RULE = ('all shipped topologies + generated topology texts (section order, repeated section names, trailing comment '
         'styles none/single/empty/multiple/#-leading/no-blank, comment-only, blank and preprocessor lines, header text, '
         'missing final newline). Non-trivial: the file has at least one comment or preprocessor line or a repeated '
@@ -103,6 +104,9 @@ def classify_item_diff(x, y, la, lb):
     return 'preprocessor-line-changed'
 
 
+_turn = [0]
+
+
 def _decoy():
     p = os.path.join(_tmp['dir'], f'decoy{os.getpid()}.itp')
     if not os.path.exists(p):
@@ -122,7 +126,18 @@ def roundtrip(ctx, path, label, truth=None, classes=()):
         kind = carrier.next_kind(ctx)
         w['carrier'] = kind
         with carrier.carried(path, kind, decoy=_decoy()) as f:
-            ItpFile(f).write(out1)
+            itp = ItpFile(f)
+        if _turn[0] % 2:
+            # a first attempt to write fails (the directory does not exist, the path is a directory) and is handled by the
+            # caller, who then writes the same object where it can
+            ctx.hit('recovery:failed-write-then-written-elsewhere')
+            for bad_target in (os.path.join(_tmp['dir'], 'no-such-directory', 'x.itp'), _tmp['dir']):
+                try:
+                    itp.write(bad_target)
+                except Exception:  # noqa
+                    pass
+        _turn[0] += 1
+        itp.write(out1)
     except Exception as exc:  # noqa
         ctx.violation(f'read-or-write-raises:{type(exc).__name__}', str(exc)[:200], witness=w)
         return
